@@ -418,3 +418,6 @@ def run_shard(shard):
 
 def replay(w):
     return replay_value(w, check_case, PROP, CONTRACTS)
+
+
+RULE += " 'large' and 'after failures' shards of the shared value driver."
